@@ -6,6 +6,8 @@ import X86Model.Driver.Proto
 import X86Model.Driver.Addr
 import X86Model.Driver.Consts
 import X86Model.Driver.Mapper
+import X86Model.Driver.Entry
+import X86Model.Driver.Gdt
 
 open X86 X86.Driver
 
@@ -13,7 +15,7 @@ open X86 X86.Driver
 structure DState where
   mapper : MState := {}
 
-def statelessHandlers : List Handler := [handleC03, handleC04, handleC05, handleC06, handleC07, handleC19]
+def statelessHandlers : List Handler := [handleC03, handleC04, handleC05, handleC06, handleC07, handleC19, handleC08, handleC15, handleC14]
 
 def dispatch : SHandler DState := fun cfg op a impl st =>
   match statelessHandlers.firstM (fun h => h cfg op a impl) with
